@@ -320,6 +320,9 @@ def namespace_cases(scope):
                             for pair in (["default", "translate"] if schema == "nexus" else ["default"]):
                                 for kind in ("tree", "list"):
                                     yield dict(scope=scope, schema=schema, pair=pair, kind=kind, route="string", doc=doc)
+                                if schema in ("newick", "nexus"):
+                                    # ... and read back one tree at a time through the tree iterator (its own TREES-block / TRANSLATE handling)
+                                    yield dict(scope=scope, schema=schema, pair=pair, kind="list", route="yield", doc=doc)
 
 
 def internal_taxa_cases(scope):
